@@ -332,7 +332,18 @@ where
         .map(|p| if p.is_null() { None } else { Some(u64_of(p)) })
         .collect();
     let seed = spec["seed"].as_str().map(sc_unhex);
-    let st = RangeStatement::init(params.clone(), commitments, promises, seed).map_err(|e| err_name(&e))?;
+    let mut st = RangeStatement::init(params.clone(), commitments, promises, seed).map_err(|e| err_name(&e))?;
+    // statements written through their PUBLIC FIELDS after construction (outside what the validating constructors can produce):
+    // used only to compare the panic branch of the checked model with the code
+    if let Some(rf) = spec["raw_fields"].as_object() {
+        if let Some(ps) = rf.get("promises").and_then(|x| x.as_array()) {
+            st.minimum_value_promises = ps.iter().map(|p| if p.is_null() { None } else { Some(u64_of(p)) }).collect();
+        }
+        if let Some(n) = rf.get("truncate_commitments").and_then(|x| x.as_u64()) {
+            st.commitments.truncate(n as usize);
+            st.commitments_compressed.truncate(n as usize);
+        }
+    }
     Ok((params, st))
 }
 
